@@ -580,11 +580,11 @@ class G:
                         self.features.add("lenkey-explicit")
             name = self.nid("p")
             p = {"pk": pk_kind, "name": name, "pos": None, "bit": bit, "dop": dop, "default": None}
-            if pk_kind == "value" and dop["k"] == "simple" and dop["dct"]["t"] == "minmax" and dop["compu"]["c"] == "IDENTICAL" \
-                    and self.opts.get("minmax_const", True) and self.chance(25):
-                # a constant of MIN-MAX-LENGTH type (e.g. a fixed identification string)
+            if pk_kind == "value" and dop["k"] == "simple" and dop["dct"]["t"] in ("minmax", "leading") \
+                    and dop["compu"]["c"] == "IDENTICAL" and self.opts.get("minmax_const", True) and self.chance(25):
+                # a constant of MIN-MAX-LENGTH / LEADING-LENGTH type (e.g. a fixed identification string)
                 p = {"pk": "const", "name": self.nid("cc"), "pos": None, "bit": 0, "dct": dop["dct"], "v": val}
-                self.features.add("const:minmax")
+                self.features.add("const:" + dop["dct"]["t"])
                 dynamic = True
                 dyn_params.append(p)
                 continue
